@@ -2,6 +2,7 @@ import Vflow.Gen.InfoModelTbl
 import Vflow.Gen.InterpretTbl
 import Vflow.Spec.Registry
 import Vflow.Model.Flow
+import Vflow.Gen.ShutdownIR
 /-!
 # C20 — built-in and shipped IPFIX information models agree
 
@@ -103,5 +104,24 @@ theorem model_type_constants : typeIndex "string" = Vflow.tString ∧ typeIndex 
 example : builtin.length = 402 ∧ shipped.length = 402 ∧
     builtin.head? = some (0, 1, 1, "octetDeltaCount", "unsigned64") ∧
     shipped.getLast? = some (0, 433, "ignoredLayer2FrameTotalCount", "unsigned64") := by decide +kernel
+
+/-! ## "does not change depending on whether the file is installed": the load happens before anything decodes
+
+`LoadExtElements` replaces the global `ipfix.InfoModel` map (a `make` followed by one assignment per row) that the
+IPFIX **and the NetFlow v9** decoders read.  F18: it used to be called from `IPFIX.run()`, after the IPFIX workers had
+been started and next to the already running NetFlow v9 listener — a datagram decoded at that moment ended the process
+(`fatal error: concurrent map read and map write`), so with the file installed the collector could die at start-up.
+The repaired `main` loads the file before any protocol is started; the two regenerated facts below pin that down. -/
+
+/-- the only run-time writers of the shared model: `main` (the one call of the loader) and the loader itself -/
+theorem gen_model_writers :
+    Gen.InfoModelTbl.modelWriters =
+      ["vflow/vflow.go main: call ipfix.LoadExtElements",
+       "ipfix/rfc5102_model.go LoadExtElements: assign InfoModel",
+       "ipfix/rfc5102_model.go LoadExtElements: assign InfoModel[ElementKey{PEN, elementID}]"] := by decide
+
+/-- in `main` the load comes before the statement that spawns the four `run()` loops (and nothing unrecognised in between) -/
+theorem gen_load_before_listeners :
+    Gen.ShutdownIR.mainSteps.take 3 = [.notifySigintSigterm, .loadElements, .spawnRunsCounted] := by decide
 
 end Vflow.C20
